@@ -119,8 +119,9 @@ def modelStep (st : St) (op : String) (args : List String) : St :=
           if fs2.get (agentsDir ++ [i, str "Download"]) ≠ some .dir then { st with fs := fs2 }
           else
             -- os.Create on the uncleaned string: resolved lexically (no symlinks)
+            -- os.Create on the uncleaned string, walked the way the OS walks it
+            let (fs3, ok) := fs2.createWalk (splitByte slash target)
             let p := (cleanComps target).2
-            let (fs3, ok) := fs2.create p
             if ok then { st with fs := fs3.writeAt p 0 ct } else { st with fs := fs3 }
     | _, _, _ => st
   | "shot", [id, name] =>
@@ -137,7 +138,7 @@ def modelStep (st : St) (op : String) (args : List String) : St :=
           if fs2.get (agentsDir ++ [i, str "Screenshots"]) ≠ some .dir then { st with fs := fs2 }
           else
             let p := (cleanComps target).2
-            let (fs3, ok) := fs2.create p
+            let (fs3, ok) := fs2.createWalk (splitByte slash target)
             -- the PNG bytes are not modelled: content token is taken from the implementation
             if ok then { st with fs := fs3.set p (.file (str "<png>")) } else { st with fs := fs3 }
     | _, _ => st
